@@ -85,7 +85,8 @@ def judge(ctx, groups, impl):
             except Exception as e:
                 ctx.problem('oracle', '`%s` output unreadable: %s' % (kind, e), cw, {}, signature='period-unreadable')
                 continue
-            bad = [n for n in set(whole) | set(acc) if n not in whole or n not in acc or any(abs(a - b) > Fraction(len(parts), 100) / 2 + Fraction(1, 10 ** 9) for a, b in zip(whole[n], acc[n]))]
+            # every printed figure is within half a cent of its exact value: k parts and the whole → (k + 1) half cents
+            bad = [n for n in set(whole) | set(acc) if n not in whole or n not in acc or any(abs(a - b) > Fraction(len(parts) + 1, 200) + Fraction(1, 10 ** 9) for a, b in zip(whole[n], acc[n]))]
             if bad:
                 ctx.problem('oracle', '`%s` of the concatenated log is not the element-wise sum of its parts (rows %s)' % (kind, [b.decode('utf-8', 'replace') for b in bad[:3]]), cw,
                             {'whole': {k.decode('utf-8', 'replace'): [str(x) for x in v] for k, v in list(whole.items())[:20]},
